@@ -719,6 +719,44 @@ def catalogue():
     return C
 
 
+def add_auto_entry_points(C, inventory):
+    """the entry points a worker found by introspection (c19_worker.auto_entries): every class of the etsi layer2 / layer3 element
+    packages, every Enum of the codec packages, every other class with from_* / as_* that the catalogue above does not name.
+    member entry points: the argument is the member index (the pool holds EVERY member); static ones: a buffer of the width the
+    members serialise to (learned by the worker), sometimes another length"""
+    added = {}
+    for m in inventory.get("entries", []):
+        nm = m["ep"]
+        if nm in C or not m.get("callable", True):
+            continue
+        tags = ["elements"] if (m.get("elements") or m.get("enum")) else []
+        if m["kind"] == "member":
+            gen = (lambda n: lambda r: [I(r.randrange(n))])(m["n"])
+        else:
+            kind, ws = m.get("arg", "bits"), m.get("widths") or []
+
+            def gen(r, kind=kind, ws=ws, n=m.get("n") or 0):
+                if kind == "int":
+                    return [I(r.choice([0, 1, 2, max(0, n - 1), n, 127, 255, 65535, r.randrange(1 << 16), r.randrange(1 << 32)]))]
+                base = ws or ([1, 2, 4, 8, 16, 24, 32, 48, 64, 72, 96] if kind == "bits" else [0, 1, 2, 4, 6, 8, 12, 24, 38, 72])
+                w = r.choice(base)
+                if r.random() < 0.25:
+                    w = max(0, r.choice([0, w - 1, w + 1, w + 8, 2 * w]))
+                return [B(rbits(r, w))] if kind == "bits" else [X(rhex(r, w))]
+
+        C[nm] = {"family": "auto", "tags": set(tags), "gen": gen, "auto": m}
+        added[nm] = m
+        if m["kind"] == "member":
+            m["all"] = [[I(i)] for i in range(m["n"])]
+    # the element Enums' as_bits as an entry point of the Lean model (Model/Purity `Call.elementBits`, table Gen.PurityInit.elementBits)
+    every = [[S(nm[len("auto."):-len(".as_bits")]), I(i)] for nm, m in sorted(added.items())
+             if m["kind"] == "member" and m.get("elements") and m["method"] == "as_bits" for i in range(m["n"])]
+    if every and "m.element" not in C:
+        C["m.element"] = {"family": "model", "tags": {"elements"}, "gen": (lambda r: list(r.choice(every))), "auto": {"kind": "model", "all": every}}
+        added["m.element"] = C["m.element"]["auto"]
+    return added
+
+
 def hdap_sample(r, prefixes):
     pool = [h for h in CORPUS.get("hdap", []) if prefixes is None or h[:2] in prefixes]
     # HDAP payloads carried inside the captured HRNP / HSTRP frames
@@ -876,14 +914,12 @@ def explain(history):
 
 def inventory_diff():
     """(items of the current AST scan that are not in the reviewed list of Props/C19.lean, reviewed items that are gone)"""
-    import importlib.util
     import re
 
+    from props.c19_model import scan_rows
+
     verif = os.path.dirname(os.path.dirname(HERE))
-    spec = importlib.util.spec_from_file_location("scan_state", os.path.join(verif, "tools", "scan_state.py"))
-    mod = importlib.util.module_from_spec(spec)
-    spec.loader.exec_module(mod)
-    rows = [tuple(x) for x in mod.scan()]
+    rows = scan_rows()
     src = open(os.path.join(verif, "lean", "DmrVerif", "Props", "C19.lean"), encoding="utf-8").read()
     a = src.index("def reviewed :")
     block = src[a : src.index("]\n", a)]
@@ -942,7 +978,19 @@ def run(ctx):
         "deterministic clock settings (1970, 1999-12-31 23:59:59, 2001, 2024-02-29, 2026-12-31 23:59:59, 2030, 2100-02-28, 2101; the clock "
         "advances with every reading, crossing the year / month boundary) and one logging setting (root logger at DEBUG) are applied BEFORE "
         "the library is imported, in fork servers and in brand-new interpreters; every entry point plus every call whose result carries a "
-        "date is compared across them.  A case = one executed call inside a history; non-trivial unless the call raised."
+        "date is compared across them.  ENTRY POINTS FOUND BY INTROSPECTION (a worker lists them from the tree under test): every class of "
+        "the etsi layer2 / layer3 element packages, every Enum of the codec packages and every other class with from_* / as_* that the "
+        "catalogue does not name - member methods / properties without required arguments for EVERY member (argument = member index), "
+        "one-argument static / class methods on buffers of the width the members serialise to (plus other lengths), the result together "
+        "with what the parsed object's own as_* / to_* / get_* / is_* methods and repr hand out.  Per class: identity histories (each member "
+        "call twice, both results held), scribble histories (the caller overwrites the returned buffer in place and calls again, the Lean "
+        "model's element call in between), dependent histories (the caller overwrites what every member of a few classes handed out, then "
+        "one call of every PDU / burst / Hytera / Motorola entry point), parse-scribble histories, ordered pairs and interleavings among "
+        "them (a third of the calls followed by the caller's overwrite); these draw from a second random stream, the hand catalogue's is "
+        "unchanged by what the introspection finds.  CONFIGURATION SWEEP (deterministic): every non-default CRC configuration of the pool "
+        "and every combination of init 0 / all ones, reverse_input_bytes, reverse_output_bytes on the (width, polynomial) of each library "
+        "calculator, as bitwise / table based / kept table based calculator on messages of 0 / 1 / 2 / 5 octets, each kept one twice, then the "
+        "library's own calculators and the PDUs that use them.  A case = one executed call inside a history; non-trivial unless the call raised."
     )
     ctx.trusted_base += [
         "Lean 4.33 kernel",
@@ -950,19 +998,44 @@ def run(ctx):
         "the reviewed inventory baseline in Props/C19.lean (a human judged every item)",
         "hand-written model of the inventoried state (Model/Purity.lean) tied to the code by this run's correspondence",
         "os.fork(): a forked copy of a just-imported interpreter is taken as a fresh interpreter state (validated against brand-new interpreters on a sample every run)",
+        "the introspection of c19_worker.auto_entries (pkgutil walk of the etsi / hytera / motorola / utils packages, inspect signatures) decides which element / enum entry points exist; a class it cannot import or a method that raises on every sample buffer is counted, not exercised",
         "the canonical form (c19_worker.canon): all instance fields recursively, enums by name, buffers as bits/hex; CRC scratch registers, the import-day of the default GPSData and the address inside text made of a memoryview ARGUMENT ('<memory at 0x…>') are masked",
     ]
     ctx.assumptions += [
         "purity is claimed for the catalogued public codec entry points (CRC, FEC, PDU, burst, Hytera, Motorola, utils), not for the protocol handlers / storage / transmission tracker (C08, C17, C18, C20)",
         "the documented in-place repairs (HammingCommon.check_and_correct, BPTC19696.repair_if_necessary(deinterleaved=True)) may change their argument iff they return that very buffer",
         "a bit array handed over where octets are expected is compared by result only where it is read as a whole through bitarray.frombytes on whole octets (BUFFER_ARGS); elsewhere the callee's slices of it do not fill their last octet and what the buffer protocol shows of the pad bits is unspecified memory (not library state) - those calls are executed for the argument snapshot and the identity test only",
+        "the caller's overwrite (scribble) reaches returned top-level buffers and buffers directly inside a returned list / tuple; FIELDS of a returned object are not overwritten (Burst() keeps its constructor's default bitarray as full_bits: inventoried as mutable-default; writing into it is the caller's act, not a library call)",
         "forced thread interleavings are out of scope (the property does not mention concurrency); state a threaded interleaving could expose is reported as an inventory / shared-state difference",
         "LocationProtocol's default gpsdata carries the date of the import day (date.today() in a default argument); it reaches as_bytes of a default-built StandardReport only and is compared with the import date, not across days",
     ]
     r = ctx.rng
     fp0 = source_fingerprint()
     CAT = catalogue()
-    names = sorted(CAT)
+    # entry points found by introspection of the tree under test (in a worker: this process never imports the library)
+    inv = parallel([{"op": "auto"}], 1)[0]
+    if not isinstance(inv, dict) or "entries" not in inv:
+        raise Infra(f"C19 worker could not list the element classes: {inv}")
+    AUTO = add_auto_entry_points(CAT, inv)
+    ctx.count("auto:entry-points", len(AUTO))
+    ctx.count("auto:classes", len({m["cls"] for m in AUTO.values() if "cls" in m}))
+    ctx.count("auto:element-package-classes", len({m["cls"] for m in AUTO.values() if m.get("elements")}))
+    ctx.count("auto:enum-members", sum(m["n"] for m in AUTO.values() if m["kind"] == "member"))
+    ctx.count("auto:enum-members-in-the-lean-model", len((AUTO.get("m.element") or {}).get("all") or []))
+    ctx.count("auto:not-callable-with-a-buffer", sum(1 for m in inv["entries"] if not m.get("callable", True)))
+    if inv.get("skipped_modules"):
+        ctx.count("auto:modules-not-importable", len(inv["skipped_modules"]))
+        ctx.notes.append("modules the introspection could not import: " + ", ".join(inv["skipped_modules"][:8]))
+    if inv.get("error"):
+        ctx.count("auto:introspection-failed")
+        ctx.notes.append("introspection of the element / enum classes failed in the worker: " + inv["error"])
+    # the hand-written catalogue keeps its own random stream (ctx.rng) - what it generates does not depend on which classes the
+    # introspection finds; everything about the introspected entry points draws from a second stream
+    import random as _random
+
+    ra = _random.Random(f"C19:auto:{ctx.seed}")
+    names = sorted(n for n in CAT if n not in AUTO)
+    auto_names = sorted(AUTO)
     ncpu = max(2, min(12, (os.cpu_count() or 4) - 2))
     MAXF = 40
     # a boosted run (x4 source drift, x8 proof / correspondence broke) concentrates the search, but every history costs a forked
@@ -979,38 +1052,58 @@ def run(ctx):
             ctx.fail(kind, inp, what, expected=expected, actual=actual)
         ctx.count(f"fail:{kind}")
 
+    t_phase = [time.time()]
+
+    def phase(name):
+        now = time.time()
+        ctx.hist[f"seconds:{name}"] = round(ctx.hist.get(f"seconds:{name}", 0) + now - t_phase[0], 1)
+        t_phase[0] = now
+
+    phase("worker-start+introspection")
     # ---------------- argument pool
     pool = {}
-    for nm in names:
-        # the entry points modelled in Lean get a larger pool (their results are also compared with the model)
-        per_ep = bud(10, 40) * (3 if nm.startswith("m.") else 1)
-        seen = set()
-        lst = []
-        tries = 0
-        while len(lst) < per_ep and tries < per_ep * 4:
-            tries += 1
-            spec = {"ep": nm, "a": CAT[nm]["gen"](r)}
-            k = key_of(spec)
-            if k not in seen:
-                seen.add(k)
-                lst.append(spec)
-        pool[nm] = lst
+    for rng, nms in ((r, names), (ra, auto_names)):
+        for nm in nms:
+            # the entry points modelled in Lean get a larger pool (their results are also compared with the model)
+            per_ep = bud(10, 40) * (3 if nm.startswith("m.") else 1)
+            if nm in AUTO:
+                if AUTO[nm].get("all"):
+                    pool[nm] = [{"ep": nm, "a": a} for a in AUTO[nm]["all"]]  # every member, in order
+                    continue
+                per_ep = bud(6, 24)
+            seen = set()
+            lst = []
+            tries = 0
+            while len(lst) < per_ep and tries < per_ep * 4:
+                tries += 1
+                spec = {"ep": nm, "a": CAT[nm]["gen"](rng)}
+                k = key_of(spec)
+                if k not in seen:
+                    seen.add(k)
+                    lst.append(spec)
+            pool[nm] = lst
     # ---------------- variants: pairs of calls (A, B) of one entry point that a coarse memo key would identify
     kvar = min(bud(2, 6), 6)
     var_pairs = []
-    for nm in names:
-        quota = {}
-        for s in pool[nm][: 4 * kvar]:
-            vs = spec_variants(s, r, [o for o in pool[nm] if o is not s])
-            r.shuffle(vs)  # a class with several members (int-type, bytes-type, array-type) does not always spend its quota on the first
-            for cls, sa, sb in vs:
-                if quota.get(cls, 0) < kvar and in_domain(sa) and in_domain(sb):
-                    quota[cls] = quota.get(cls, 0) + 1
-                    var_pairs.append((cls, sa, sb))
-        for cls, n in quota.items():
-            ctx.count(f"variant:{cls}", n)
-        if quota:
-            ctx.count("variant:entry-points")
+    # the introspected entry points have their own histories over EVERY member (element:*); of the generic per-entry-point
+    # shares (variants, forms, failing calls first) a quick run gives them the parsers of the element packages only
+    generic_auto = [nm for nm in auto_names if AUTO[nm]["kind"] == "static" and (ctx.thorough() or AUTO[nm].get("elements"))]
+    forms_auto = generic_auto if ctx.thorough() else generic_auto[ctx.seed % 3 :: 3]  # a third of them per quick run, by seed
+    ctx.count("auto:entry-points-in-the-generic-shares", len(generic_auto))
+    for rng, nms in ((r, names), (ra, generic_auto)):
+        for nm in nms:
+            quota = {}
+            for s in pool[nm][: 4 * kvar]:
+                vs = spec_variants(s, rng, [o for o in pool[nm] if o is not s])
+                rng.shuffle(vs)  # a class with several members (int-type, bytes-type, array-type) does not always spend its quota on the first
+                for cls, sa, sb in vs:
+                    if quota.get(cls, 0) < kvar and in_domain(sa) and in_domain(sb):
+                        quota[cls] = quota.get(cls, 0) + 1
+                        var_pairs.append((cls, sa, sb))
+            for cls, n in quota.items():
+                ctx.count(f"variant:{cls}", n)
+            if quota:
+                ctx.count("variant:entry-points")
     # the same data handed to two entry points that share inventoried state (a memo shared by calculators / codecs whose
     # key drops the configuration or the entry point)
     kind = {"b": "bits", "bl": "bits", "x": "bytes", "xa": "bytes"}
@@ -1019,38 +1112,42 @@ def run(ctx):
         return next((j for j, e in enumerate(spec["a"]) if e[0] in kind), None)
 
     cross = []
-    alltags = sorted({t for nm in names for t in CAT[nm]["tags"]})
-    for t in alltags:
-        grp = [nm for nm in names if t in CAT[nm]["tags"]]
-        pairs = [(a, b) for a in grp for b in grp if a != b]
-        r.shuffle(pairs)
-        n = 0
-        for a, b in pairs:
-            if n >= min(bud(40, 400), 400):
-                break
-            sa, sb0 = r.choice(pool[a]), r.choice(pool[b])
-            ja, jb = first_buf(sa), first_buf(sb0)
-            if ja is None or jb is None:
-                continue
-            e = sa["a"][ja]
-            if kind[e[0]] != kind[sb0["a"][jb][0]]:
-                if kind[e[0]] == "bytes":
-                    e = B(hex2bits(e[1]))
-                elif len(e[1]) % 8 == 0 and e[0] == "b":
-                    e = X(f"{int(e[1], 2):0{len(e[1]) // 4}x}" if e[1] else "")
-                else:
+
+    def cross_of(rng, nms):
+        for t in sorted({t for nm in nms for t in CAT[nm]["tags"]}):
+            grp = [nm for nm in nms if t in CAT[nm]["tags"]]
+            pairs = [(a, b) for a in grp for b in grp if a != b]
+            rng.shuffle(pairs)
+            n = 0
+            for a, b in pairs:
+                if n >= min(bud(40, 400), 400):
+                    break
+                sa, sb0 = rng.choice(pool[a]), rng.choice(pool[b])
+                ja, jb = first_buf(sa), first_buf(sb0)
+                if ja is None or jb is None:
                     continue
-            sb = {"ep": b, "a": sb0["a"][:jb] + [e] + sb0["a"][jb + 1 :]}
-            if in_domain(sb):
-                cross.append((sa, sb))
-                n += 1
+                e = sa["a"][ja]
+                if kind[e[0]] != kind[sb0["a"][jb][0]]:
+                    if kind[e[0]] == "bytes":
+                        e = B(hex2bits(e[1]))
+                    elif len(e[1]) % 8 == 0 and e[0] == "b":
+                        e = X(f"{int(e[1], 2):0{len(e[1]) // 4}x}" if e[1] else "")
+                    else:
+                        continue
+                sb = {"ep": b, "a": sb0["a"][:jb] + [e] + sb0["a"][jb + 1 :]}
+                if in_domain(sb):
+                    cross.append((sa, sb))
+                    n += 1
+
+    cross_of(r, names)
+    cross_of(ra, auto_names)
     ctx.count("variant:same-data-other-entry-point", len(cross))
     # ---------------- forms: ONE buffer argument of a pool call in every container form (arg_forms); a fixed share of the budget
     nform = min(bud(1, 3), 6)
     form_calls = []  # (entry point, pool call, [(form, argument index, call)])
     form_of = {}
     unstable = set()  # calls whose result may contain unspecified memory (form_comparable): snapshot / identity checks only
-    for nm in names:
+    for nm in names + forms_auto:
         for s0 in pool[nm][:nform]:
             fl = [(form, j, fs) for form, j, fs in spec_forms(s0) if in_domain(fs)]
             if fl:
@@ -1065,14 +1162,47 @@ def run(ctx):
     # ---------------- failing calls first: [bad, good, bad', good, …] per entry point
     nbad = min(bud(1, 3), 4)
     err_hist = []
-    for nm in names:
-        for s0 in pool[nm][:nbad]:
-            bc = [b for b in bad_calls(s0, r) if in_domain(b)][:3]
-            if bc:
-                err_hist.append([x for b in bc for x in (b, s0)])
+    for rng, nms in ((r, names), (ra, generic_auto)):
+        for nm in nms:
+            for s0 in pool[nm][:nbad]:
+                bc = [b for b in bad_calls(s0, rng) if in_domain(b)][:3]
+                if bc:
+                    err_hist.append([x for b in bc for x in (b, s0)])
     ctx.count("error-first:entry-points", len({h[0]["ep"] for h in err_hist}))
+    # ---------------- configuration sweep (deterministic, not left to the random pool): every non-default CRC configuration of
+    # CRC_CFGS, and every combination of init (0 / all ones), reverse_input_bytes, reverse_output_bytes on the (width, polynomial)
+    # of each LIBRARY calculator (they share the cached lookup table with it), as a bitwise, a table based and a kept table based
+    # calculator on messages of 0 / 1 / 2 / 5 octets (one feed, several feeds), each kept one twice; then the library's own
+    # calculators and the PDUs that use them
+    from props.c19_model import CFGS as LIB_CFGS
+
+    sweep_cfgs = [c for c in CRC_CFGS if isinstance(c, list)]
+    for c in LIB_CFGS[:5]:  # the (width, polynomial) of CRC8 / CRC9 / CRC16 / CRC32 / CRC7 as the library configures them
+        for init in (0, (1 << c[0]) - 1):
+            for ri in (0, 1):
+                for ro in (0, 1):
+                    v = [c[0], c[1], init, 0, ri, ro]
+                    if v not in sweep_cfgs:
+                        sweep_cfgs.append(v)
+    lib_tail = [pool[nm][0] for nm in ("crc8.calculate", "crc9.calculate", "crc16.calculate", "crc32.calculate", "csbk.from_bits", "dataheader.from_bits",
+                                       "slc.from_bits", "rate12.from_bits", "pi.from_bits") if pool.get(nm)]
+    lib_tail += [s0 for s0 in pool.get("m.crc.shared", [])[:8]]
+    sweep_hist = []
+    for c in sweep_cfgs:
+        cfg = ["l", [I(x) for x in c]]
+        m = {n: B(rbits(ra, 8 * n)) for n in (0, 1, 2, 5)}
+        one = B(format(ra.randrange(1, 256), "08b"))
+
+        def kept_(d):
+            return {"ep": "bitcrc.persistent", "a": [cfg, I(1), d]}
+
+        calls = [kept_(one), kept_(one), {"ep": "bitcrc.table", "a": [cfg, m[1]]}, {"ep": "bitcrc.table", "a": [cfg, m[0]]}, kept_(m[0]), kept_(m[1]), kept_(m[2]),
+                 {"ep": "bitcrc.bitwise", "a": [cfg, m[1]]}, kept_(m[5]), kept_(m[5]), {"ep": "bitcrc.table", "a": [cfg, m[5]]}, kept_(one)]
+        calls = [x for x in calls if in_domain(x)]
+        sweep_hist.append(calls + lib_tail)
+    ctx.count("config-sweep:configurations", len(sweep_cfgs))
     hist_corpus = corpus_specs()
-    all_specs = [b for h in err_hist for b in h[::2]] + [s for nm in names for s in pool[nm]] + [x for _, sa, sb in var_pairs for x in (sa, sb)] + [sb for _, sb in cross] + [fs for _, _, fl in form_calls for _, _, fs in fl]
+    all_specs = [x for h in sweep_hist for x in h] + [b for h in err_hist for b in h[::2]] + [s for nm in names + auto_names for s in pool[nm]] + [x for _, sa, sb in var_pairs for x in (sa, sb)] + [sb for _, sb in cross] + [fs for _, _, fl in form_calls for _, _, fs in fl]
     for _, calls in hist_corpus:
         for s in calls:
             all_specs.append(s)
@@ -1080,11 +1210,12 @@ def run(ctx):
     for s in all_specs:
         uniq.setdefault(key_of(s), s)
     ulist = list(uniq.values())
-    pool_keys = {key_of(s) for nm in names for s in pool[nm]} | {key_of(s) for _, calls in hist_corpus for s in calls}
+    pool_keys = {key_of(s) for nm in names + auto_names for s in pool[nm]} | {key_of(s) for _, calls in hist_corpus for s in calls}
     dropped = set()
     ctx.count("pool:specs", len(ulist))
-    ctx.count("pool:entry-points", len(names))
+    ctx.count("pool:entry-points", len(names) + len(auto_names))
 
+    phase("generation")
     # ---------------- reference: each call executed first in a fresh (forked, just imported) interpreter state
     t0 = time.time()
     chunks = [ulist[i : i + 40] for i in range(0, len(ulist), 40)]
@@ -1105,6 +1236,7 @@ def run(ctx):
     ctx.count("probe:shared-objects", len(pristine))
     ctx.notes.append(f"reference table: {len(ref)} calls in {time.time() - t0:.1f}s; state probe covers {len(pristine)} shared objects")
 
+    phase("reference")
     # ---------------- pipes: (producer call, consumer call, argument index, value handed over, caller overwrites it first)
     from props.c19_worker import INPLACE_OK
 
@@ -1189,6 +1321,7 @@ def run(ctx):
                      + ": what the caller (or a later in-place operation of the library) does to the result lands in the caller's buffer",
                      expected="a new object", actual=al[1])
 
+    phase("pipes")
     # ---------------- brand-new interpreters on a sample (validates the fork server; catches import-order effects)
     nfresh = bud(24, 160)
     sample = [ulist[i] for i in sorted(r.sample(range(len(ulist)), min(nfresh, len(ulist)))) if key_of(ulist[i]) not in dropped and key_of(ulist[i]) not in unstable]
@@ -1199,6 +1332,7 @@ def run(ctx):
             fail("fresh-interpreter-differs", {"history": [s], "index": 0}, f"{s['ep']}: brand-new interpreter and forked fresh state disagree", expected=fr[0], actual=ref[key_of(s)][0])
     ctx.count("fresh-interpreter-calls", len(sample))
 
+    phase("brand-new-interpreters")
     # ---------------- histories
     histories = []  # (label, [specs])
     for label, calls in hist_corpus:
@@ -1222,7 +1356,7 @@ def run(ctx):
         for i in range(0, len(by_cls[cls]), CH):
             histories.append((f"variant:{cls}", [c for blk in by_cls[cls][i : i + CH] for c in blk]))
     # the caller overwrites the buffers it got back, then makes the same call again (a result that aliases library state)
-    scr = [[dict(s, m=1), s, dict(s, m=1), s] for nm in names for s in pool[nm][:kvar]]
+    scr = [[dict(s, m=1), s, dict(s, m=1), s] for nm in names for s in pool[nm][:kvar]]  # (the introspected ones: element:* below)
     for i in range(0, len(scr), CH):
         histories.append(("scribble", [c for blk in scr[i : i + CH] for c in blk]))
     # every form of a buffer argument as an object the caller KEEPS: the same call three times with the very same object, never
@@ -1270,7 +1404,7 @@ def run(ctx):
     nseq = bud(400, 5000)
     seqlen = 30
     weights = [3 if CAT[nm]["tags"] else 1 for nm in names]
-    for _ in range(nseq):
+    for k_seq in range(nseq):
         calls = []
         # half of the sequences concentrate on a few entry points (same state hit repeatedly)
         focus = r.sample(names, r.choice([2, 3, 5])) if r.random() < 0.5 else None
@@ -1278,11 +1412,77 @@ def run(ctx):
             nm = r.choice(focus) if focus and r.random() < 0.8 else r.choices(names, weights)[0]
             calls.append(r.choice(pool[nm]))
         # in every eighth the application re-seeds `random` / `numpy.random` between its calls
-        histories.append(("interleaving:reseed" if len(histories) % 8 == 0 else "interleaving", calls))
+        histories.append(("interleaving:reseed" if k_seq % 8 == 0 else "interleaving", calls))
     # long chained histories
     for _ in range(bud(4, 40)):
         calls = [r.choice(pool[r.choices(names, weights)[0]]) for _ in range(bud(400, 2500) // eff)]
         histories.append(("long", calls))
+
+    # ---- element classes / enum members (process-wide singletons), EVERY member of every class:
+    #  identity  : the same member call twice, both results held: two calls must hand out two objects, neither may change later
+    #  scribble  : the caller overwrites the returned buffer in place, calls again, overwrites, calls again (compared with the
+    #              fresh reference of that member)
+    #  dependent : the caller overwrites what every member of a few classes handed out, then one call of every PDU / burst /
+    #              Hytera / Motorola entry point (a burst or PDU serialised WITH that element)
+    dependents = [pool[nm][0] for nm in names if CAT[nm]["family"] in ("pdu", "burst", "defaults", "hytera", "motorola") and pool[nm] and key_of(pool[nm][0]) not in dropped]
+    member_eps = [nm for nm in auto_names if AUTO[nm]["kind"] == "member"]
+    for nm in member_eps:
+        specs = pool[nm]
+        for i in range(0, len(specs), 20):
+            histories.append(("element:identity", [x for s1 in specs[i : i + 20] for x in (s1, s1)]))
+        key = nm[len("auto."):-len(".as_bits")] if nm.endswith(".as_bits") else None
+        modelled = {tuple(a[1]) for a in ((AUTO.get("m.element") or {}).get("all") or []) if a[0][1] == key}
+        for i in range(0, len(specs), 8):
+            calls = []
+            for s1 in specs[i : i + 8]:
+                mi = s1["a"][0][1]
+                mid = [{"ep": "m.element", "a": [S(key), I(mi)]}] if ("i", mi) in modelled else []
+                calls += [dict(s1, m=1), s1] + mid + [dict(s1, m=1), s1]
+            histories.append(("element:scribble", calls))
+    for i in range(0, len(member_eps), 4):
+        grp = member_eps[i : i + 4]
+        pre = [dict(s1, m=1) for nm in grp for s1 in pool[nm]]
+        histories.append(("element:dependent", pre + dependents + [s1 for nm in grp for s1 in pool[nm]]))
+    # the static ones (from_bits / from_bytes / resolve_*): parse, overwrite what the parsed object's serialisers handed out,
+    # parse again; then the member calls of the same class
+    static_eps = [nm for nm in auto_names if AUTO[nm]["kind"] == "static"]
+    members_of = {}
+    for nm in member_eps:
+        members_of.setdefault(AUTO[nm]["cls"], []).append(nm)
+    for nm in static_eps:
+        calls = [x for s1 in pool[nm][:6] for x in (dict(s1, m=1), s1)]
+        calls += [s1 for m2 in members_of.get(AUTO[nm]["cls"], []) for s1 in pool[m2][:16]]
+        if calls:
+            histories.append(("element:parse-scribble", calls[:40]))
+    ctx.count("element:member-entry-points", len(member_eps))
+    ctx.count("element:static-entry-points", len(static_eps))
+    ctx.count("element:dependent-calls-per-history", len(dependents))
+    for h in sweep_hist:
+        h = [c for c in h if key_of(c) not in dropped]
+        if h:
+            histories.append(("config-sweep", h))
+    # the static ones also twice in a row (both results held)
+    for nm in static_eps:
+        for s1 in pool[nm][: bud(2, 12)]:
+            histories.append(("twice", [s1, s1]))
+    # ordered pairs among the introspected entry points (A;B;A and B;A;B), and interleavings that concentrate on a few of them,
+    # now and then mixed with the hand-catalogued ones; in a third of the calls the caller overwrites what it was handed
+    a_pairs = [(a, b) for a in auto_names for b in auto_names if a < b and pool[a] and pool[b]]
+    ra.shuffle(a_pairs)
+    for a, b in a_pairs[: bud(30, 2000)]:
+        sa, sb = ra.choice(pool[a]), ra.choice(pool[b])
+        histories.append(("pair:auto", [sa, sb, sa]))
+        histories.append(("pair:auto", [sb, sa, sb]))
+    live_auto = [nm for nm in auto_names if pool[nm]]
+    for _ in range(bud(40, 600) if live_auto else 0):
+        calls = []
+        focus = ra.sample(live_auto, min(len(live_auto), ra.choice([2, 3, 5])))
+        for _ in range(seqlen):
+            u = ra.random()
+            nm = ra.choice(focus) if u < 0.6 else ra.choice(live_auto) if u < 0.8 else ra.choices(names, weights)[0]
+            s1 = ra.choice(pool[nm])
+            calls.append(dict(s1, m=1) if nm in AUTO and ra.random() < 0.3 else s1)
+        histories.append(("interleaving:auto", calls))
 
     t0 = time.time()
     # every object returned inside a (short) history stays held by the caller and is examined again after the last call
@@ -1294,6 +1494,8 @@ def run(ctx):
     state_changed = []
     for (label, calls), rr in zip(histories, resp):
         ctx.count(f"history:{label.split(':')[0]}")
+        if label.startswith("element:"):
+            ctx.count(f"history:{label}")
         if label.endswith(":reseed"):
             ctx.count("history:random-reseeded-between-calls")
         if "child_error" in rr:
@@ -1401,6 +1603,7 @@ def run(ctx):
     for _ in bad_hist[6:]:
         ctx.count("fail:history-dependent-result")
 
+    phase("histories")
     # ---------------- wall-clock / randomness: deterministic settings applied BEFORE the library is imported, fresh state each.
     # Settings 1 and 2 get the broad sample; the other clocks (other centuries / years / months, a leap day, Dec 31 23:59:59,
     # an unset clock) and the logging setting get one call of every entry point plus every call whose result carries a date
@@ -1411,7 +1614,7 @@ def run(ctx):
     timed = [s for s in ulist if key_of(s) not in dropped and key_of(s) not in unstable and ("t'" in ref[key_of(s)][0] or s["ep"].startswith(("gpsdata.", "lp.", "mbxml.write_infotime", "m.gpsdate")))]
     if len(timed) > bud(150, 1500):
         timed = [timed[i] for i in sorted(r.sample(range(len(timed)), bud(150, 1500)))]
-    amb_extra = list({key_of(s): s for s in [pool[nm][0] for nm in names if pool[nm]] + timed}.values())
+    amb_extra = list({key_of(s): s for s in [pool[nm][0] for nm in names + auto_names if pool[nm]] + timed}.values())
     settings = sorted(AMBIENT) + [AMBIENT_LOGGING]
     amb_res = {}
 
@@ -1464,6 +1667,7 @@ def run(ctx):
                      expected=base, actual=others)
     ctx.count("ambient-calls", sum(len(v) for v in amb_res.values()))
 
+    phase("ambient")
     # ---------------- the inventory of the source as it is now against the reviewed list (also a Lean theorem: inventory_baseline)
     new_items, gone_items = inventory_diff()
     ctx.count("inventory:new-items", len(new_items))
@@ -1485,6 +1689,7 @@ def run(ctx):
         clocks = {AMBIENT[k][0][0]: amb_res.get(k) or {} for k in sorted(AMBIENT)}
         for comp, pairs in model_lines(ctx, pool, ref, histories, resp, clocks).items():
             ctx.correspond(comp, pairs)
+    phase("inventory+model")
 
 
 def replay(obj):
